@@ -932,6 +932,13 @@ func TestVerifC35(t *testing.T) {
 			break
 		}
 	}
+	var done []string
+	for _, fam := range fams {
+		if _, ok := famCounts[fam.name]; ok && (complete || fam.name != fams[len(famCounts)-1].name) {
+			done = append(done, fam.name)
+		}
+	}
+	r.Set("families_completed", done)
 	names := make([]string, 0, len(famCounts))
 	for k := range famCounts {
 		names = append(names, k)
@@ -945,7 +952,7 @@ func TestVerifC35(t *testing.T) {
 	r.Set("cases_with_3plus_paid_voter_prep_pairs", multiPair)
 	r.Set("cases_with_wage", wagePaid)
 	r.Set("cases_where_bond_requirement_caps_power", capped)
-	r.Set("cases_where_prep_registered_in_term_is_credited", unregPaid)
+	r.Set("cases_where_address_registered_in_term_is_credited", unregPaid) // expected 0: it is not ranked
 	r.Set("cases_without_any_reward", nothing)
 	r.Set("cases_with_enable_event", enableHist)
 	r.Set("cases_with_two_vote_events", twoVote)
